@@ -73,6 +73,12 @@ def step : List String → String
     match parseExts opts, parseMsgs ms with
     | some opts, some ms => showVerdict opts (deliver maxN opts ms)
     | _, _ => "bad-op"
+  | ["gate712", opts] =>
+    -- a validly signed EIP-712 transaction (one ordinary message) with these extension options, delivered: executed
+    -- when the gate lets it pass, refused otherwise (here the signature verifier's own option count is reached)
+    match parseExts opts, parseMsgs "O1" with
+    | some opts, some ms => if deliver maxN opts ms = .passGate then "executed" else "reject"
+    | _, _ => "bad-op"
   | ["ante", opts, ms] =>
     match parseExts opts, parseMsgs ms with
     | some opts, some ms => showVerdict opts (gate maxN opts ms)
